@@ -9,8 +9,12 @@
 (* accepted only between two digits of the literal's base, an octal        *)
 (* literal is a 0 followed by octal digits, suffixes are u/U, l/L, ll/LL   *)
 (* in either order.  Character literals: one plain character or one escape *)
-(* sequence (simple, \x hex, \ + up to three octal digits) with a value in *)
-(* 0..127 (above that the sign is implementation-defined).                 *)
+(* sequence (simple, \x hex, \ + up to three octal digits).  A plain or u8 *)
+(* literal has a value in 0..127 (above that the sign / the type depends   *)
+(* on the implementation and the language version); a literal with the     *)
+(* encoding prefix L, u or U is the code unit itself, never negative:      *)
+(* L'\377' = u'\377' = 255, u up to 0xFFFF, \x takes every hex digit that  *)
+(* follows.                                                                *)
 (* A literal is complete in an accepting mode.                             *)
 (***************************************************************************)
 EXTENDS Integers, Sequences, TLC
@@ -45,15 +49,18 @@ SufPrefix == ValidSuf        \* every proper prefix of a valid suffix is itself 
 VARIABLES text,    \* sequence of one-character strings
           mode, base, val,
           digs,    \* history: the digit values read (for the positional-value invariant)
-          suf      \* suffix read so far
-vars == <<text, mode, base, val, digs, suf>>
+          suf,     \* suffix read so far
+          pfx      \* encoding prefix of a character literal: "", "L", "u", "U", "u8"
+vars == <<text, mode, base, val, digs, suf, pfx>>
 
 NumAccept == {"zero", "dec", "oct", "hex", "bin", "suf"}
 Accepting == mode \in NumAccept \cup {"cdone"}
-IsChar == mode \in {"c0", "cb", "cx0", "cx", "co1", "co2", "co3", "cq", "cdone"}
+\* largest value of a character literal with the given prefix
+CMax(p) == CASE p \in {"", "u8"} -> 127 [] p = "u" -> 65535 [] OTHER -> INT_MAX
+IsChar == mode \in {"pfx", "c0", "cb", "cx0", "cx", "co1", "co2", "co3", "cq", "cdone"}
 Unsigned == \E i \in 1..Len(text) : text[i] \in {"u", "U"} /\ mode = "suf"
 
-Init == text = <<>> /\ mode = "start" /\ base = 10 /\ val = 0 /\ digs = <<>> /\ suf = ""
+Init == text = <<>> /\ mode = "start" /\ base = 10 /\ val = 0 /\ digs = <<>> /\ suf = "" /\ pfx = ""
 
 Fits(d) == val <= (INT_MAX - d) \div base
 Digit(c, m) ==       \* append a digit of the current base, go to mode m
@@ -66,10 +73,14 @@ Suffix(c) == /\ (suf \o c) \in SufPrefix /\ suf' = suf \o c /\ mode' = "suf"
 
 Step(c) ==
   /\ text' = Append(text, c)
+  /\ (IF mode = "start" /\ c \in {"L", "u", "U"} THEN pfx' = c
+      ELSE IF mode = "pfx" /\ pfx = "u" /\ c = "8" THEN pfx' = "u8" ELSE pfx' = pfx)
   /\ CASE mode = "start" ->
             \/ c = "0" /\ mode' = "zero" /\ base' = 8 /\ digs' = <<0>> /\ UNCHANGED <<val, suf>>
             \/ c # "0" /\ Digit(c, "dec")
             \/ c = "'" /\ To("c0")
+            \/ c \in {"L", "u", "U"} /\ To("pfx")
+       [] mode = "pfx" -> (c = "'" /\ To("c0")) \/ (pfx = "u" /\ c = "8" /\ To("pfx"))
        [] mode = "zero" ->
             \/ c \in {"x", "X"} /\ mode' = "hex0" /\ base' = 16 /\ digs' = <<>> /\ UNCHANGED <<val, suf>>
             \/ c \in {"b", "B"} /\ mode' = "bin0" /\ base' = 2 /\ digs' = <<>> /\ UNCHANGED <<val, suf>>
@@ -97,15 +108,17 @@ Step(c) ==
             \/ c = "x" /\ mode' = "cx0" /\ base' = 16 /\ UNCHANGED <<val, digs, suf>>
             \/ IsDig(c, 8) /\ val' = DigVal[c] /\ digs' = <<DigVal[c]>> /\ base' = 8 /\ mode' = "co1"
                /\ UNCHANGED suf
-       [] mode = "cx0" -> Digit(c, "cx") /\ val' <= 127
-       [] mode = "cx"  -> (Digit(c, "cx") /\ val' <= 127) \/ (c = "'" /\ To("cdone"))
-       [] mode = "co1" -> (Digit(c, "co2") /\ val' <= 127) \/ (c = "'" /\ To("cdone"))
-       [] mode = "co2" -> (Digit(c, "co3") /\ val' <= 127) \/ (c = "'" /\ To("cdone"))
+       [] mode = "cx0" -> Digit(c, "cx") /\ val' <= CMax(pfx)
+       [] mode = "cx"  -> (Digit(c, "cx") /\ val' <= CMax(pfx)) \/ (c = "'" /\ To("cdone"))
+       [] mode = "co1" -> (Digit(c, "co2") /\ val' <= CMax(pfx)) \/ (c = "'" /\ To("cdone"))
+       [] mode = "co2" -> (Digit(c, "co3") /\ val' <= CMax(pfx)) \/ (c = "'" /\ To("cdone"))
        [] mode = "co3" -> c = "'" /\ To("cdone")
        [] mode = "cq"  -> c = "'" /\ To("cdone")
        [] OTHER -> FALSE
 
-Next == Len(text) < MaxLen /\ \E c \in Chars : Step(c)
+\* a character literal may be three characters longer than a number (prefix, two quotes, backslash)
+Next == /\ Len(text) < (IF IsChar THEN MaxLen + 3 ELSE MaxLen)
+        /\ \E c \in Chars : Step(c)
 Spec == Init /\ [][Next]_vars
 
 ---------------------------------------------------------------------------
@@ -125,7 +138,11 @@ SepOK ==
   /\ (~IsChar => \A i \in 1..Len(text) - 1 : ~(text[i] = "'" /\ text[i + 1] = "'"))
   /\ (~IsChar /\ Len(text) >= 3 /\ text[2] \in {"x", "X", "b", "B"} => text[3] # "'")
 
-RangeOK == val >= 0 /\ val <= INT_MAX /\ (mode = "cdone" => val <= 127)
+RangeOK == val >= 0 /\ val <= INT_MAX /\ (mode = "cdone" => val <= CMax(pfx))
+
+\* the encoding prefix is what the literal starts with, and only character literals have one
+PrefixOK == /\ (pfx # "" => IsChar /\ text[1] = (IF pfx = "u8" THEN "u" ELSE pfx))
+            /\ (pfx = "u8" => Len(text) >= 2 /\ text[2] = "8")
 
 \* the value does not depend on the suffix, letter case or separators: removing a separator or
 \* a suffix character keeps the value (checked on the digit history)
